@@ -121,18 +121,20 @@ def _run_calls(scn, tid, impl, conv, parser, orig_parse, captured, hostfns, name
                ret_refs, rets=None):
     calls = []
     events_all = []
-    anon = 0
     digest0 = TRACER.functions_digest()
-    for ci, c in enumerate(scn['calls']):
+    state = {'anon': 0}
+
+    def one_call(ci, c, do_eval, repl_names=None):
         kw = {}
         n = c.get('n')
         if n is not None:
             kw['names'] = names_py[n]
-            names_py[n].asked = []
+            if hasattr(names_py[n], 'asked'):
+                names_py[n].asked = []
             nid = 'n%d' % (n + 1)
         else:
-            anon += 1
-            nid = 'anon%d' % anon
+            state['anon'] += 1
+            nid = 'anon%d' % state['anon']
             names0[nid] = {}
         if c.get('max') is not None:
             kw['max_ops_evaluated'] = c['max']
@@ -182,12 +184,14 @@ def _run_calls(scn, tid, impl, conv, parser, orig_parse, captured, hostfns, name
         n_enter0 = 0
         try:
             try:
-                res = parser.eval(c['src'], **kw)
+                out_exc = None
+                res = do_eval(kw)
                 out = {'t': 'ok', 'v': None}
                 out_py = res
             except BaseException as e:   # noqa
                 out = {'t': 'exc', 'e': conv.exc(e), 'msg': str(e)[:200]}
                 out_py = None
+                out_exc = e
                 if isinstance(e, (KeyboardInterrupt, SystemExit, MemoryError)):
                     raise
         finally:
@@ -220,8 +224,8 @@ def _run_calls(scn, tid, impl, conv, parser, orig_parse, captured, hostfns, name
         end = {'e': 'end', 'out': out, 'ops': call_ops, 'nev': nev,
                'names': {'n%d' % (i + 1): {k: conv.deep(v) for k, v in nm.items()} for i, nm in enumerate(names_py)},
                'depth': depth,
-               'looked': sorted(set(k for k in names_py[n].asked if isinstance(k, str))) if n is not None else ['*']}
-        events_all += evs + [end]
+               'looked': sorted(set(k for k in names_py[n].asked if isinstance(k, str))) if n is not None and hasattr(names_py[n], 'asked') else ['*']}
+        events_all.extend(evs + [end])
         calls.append({'tree': tree, 'nid': nid, 'max': c['max'] if c.get('max') is not None else 100, 'ast': ast_spec,
                       'src': c['src']})
         if listed is not None:
@@ -230,11 +234,22 @@ def _run_calls(scn, tid, impl, conv, parser, orig_parse, captured, hostfns, name
             calls[-1]['lits'] = lits
         if AUDIT['on']:
             calls[-1]['audit'] = sorted(set(AUDIT['events']))
-        if TRACER.overflow:
-            break
+        return out, out_py, out_exc
+
+    if scn.get('repl'):
+        from . import repl_conf
+        loop = repl_conf.drive(impl, parser, scn, one_call, names_py, calls)
+    else:
+        loop = None
+        for ci, c in enumerate(scn['calls']):
+            one_call(ci, c, lambda kw, c=c: parser.eval(c['src'], **kw))
+            if TRACER.overflow:
+                break
     case = {'tid': tid, 'calls': calls, 'names0': names0, 'heap0': heap0, 'host': host_spec(host, ret_refs),
-            'events': events_all, 'overflow': bool(TRACER.overflow),
+            'events': events_all, 'overflow': bool(getattr(TRACER, 'overflow', False)),
             'functions_frozen': TRACER.functions_digest() == digest0}
+    if loop is not None:
+        case['repl'] = loop
     case['bound'] = scn.get('bound') or size_bound(names_py, rets or {}, [c['src'] for c in scn['calls']])
     return case
 
